@@ -239,6 +239,31 @@ func (e *termEval) eval1(v ssa.Value, c *tctx) *Term {
 			switch a := x.X.(type) {
 			case *ssa.FieldAddr:
 				if st := structOf(a.X.Type()); st != nil {
+					// a field of a local struct variable: what was stored into that field, or the field of the value the
+					// whole variable was assigned (a by-value parameter spilled because one of its fields is written)
+					if al, isAl := a.X.(*ssa.Alloc); isAl {
+						var ts []*Term
+						for _, ref := range *al.Referrers() {
+							switch r := ref.(type) {
+							case *ssa.FieldAddr:
+								if r.Field != a.Field {
+									continue
+								}
+								for _, r2 := range *r.Referrers() {
+									if sv, ok := r2.(*ssa.Store); ok && sv.Addr == ssa.Value(r) {
+										ts = append(ts, e.eval(sv.Val, c))
+									}
+								}
+							case *ssa.Store:
+								if r.Addr == ssa.Value(al) {
+									ts = append(ts, &Term{Op: "field", Name: nm(st.Field(a.Field)), Args: []*Term{e.eval(r.Val, c)}})
+								}
+							}
+						}
+						if len(ts) > 0 {
+							return choiceOf(ts)
+						}
+					}
 					return &Term{Op: "field", Name: nm(st.Field(a.Field)), Args: []*Term{e.eval(a.X, c)}}
 				}
 			case *ssa.Global:
